@@ -16,7 +16,12 @@ package dpipe
 // Done channel was observed closed.
 //@ func (c *conn) Read(data []byte) (n int, err error)
 //@   requires c.readDeadline != nil && c.closed != nil && c.closing != nil && c.rCh != nil
+//@   requires [noalias] forall k mathint :: {msg(c.rCh, k)} base(msg(c.rCh, k)) != base(data)
 //@   modifies data[*], rdExpired, rdLast
+//@   ensures [msg] err == nil ==> lastrecv() >= old(recvd(c.rCh)) && lastrecv() < recvd(c.rCh) && n == min(len(data), len(msg(c.rCh, lastrecv()))) &&
+//@            (forall i mathint :: {data[i]} 0 <= i && i < n ==> data[i] == msg(c.rCh, lastrecv())[i])
+//@   ensures [rest] forall i mathint :: {data[i]} n <= i && i < len(data) ==> data[i] == old(data[i])
+//@   ensures [none] err != nil ==> n == 0
 //@   ghost after Done#1: rdExpired = closed(result$); rdLast = result$
 //@   ghost after Done#2: rdLast = result$
 //@   ensures [deadline.persist] rdExpired && !closed(c.closed) && !closed(c.closing) ==> n == 0 && err == context.DeadlineExceeded
@@ -28,11 +33,28 @@ package dpipe
 //@   modifies lastUntil
 //@   ensures [nil] err == nil
 
+// C18: one write is one message, a fresh copy of the caller's bytes; the message log of the channel is the order of writes
+//@ func (c *conn) Write(data []byte) (n int, err error)
+//@   requires c.writeDeadline != nil && c.closed != nil && c.wCh != nil
+//@   ensures [sent] err == nil ==> n == len(data) && lastsend() >= old(sent(c.wCh)) && lastsend() < sent(c.wCh) && len(msg(c.wCh, lastsend())) == len(data) &&
+//@            fresh(base(msg(c.wCh, lastsend()))) &&
+//@            (forall i mathint :: {msg(c.wCh, lastsend())[i]} 0 <= i && i < len(data) ==> msg(c.wCh, lastsend())[i] == old(data[i]))
+//@   ensures [none] err != nil ==> n == 0
+//@   ensures [frame] forall i mathint :: {data[i]} 0 <= i && i < len(data) ==> data[i] == old(data[i])
+
+// closing one end touches nothing but that end's own closed channel
+//@ func (c *conn) Close() (err error)
+//@   requires c.closed != nil
+//@   option trust_unlocked_close=true
+//@   ensures [nil] err == nil
+//@   ensures [own] forall ch mathint :: {closed(ch)} ch != ref(c.closed) ==> closed(ch) == old(closed(ch))
+
 // ---- lock discipline (C19): every field is set once by Pipe() and then only read; synchronisation is by channels
-//@ field conn rCh immutable
-//@ field conn wCh immutable
+//@ field conn rCh openchan
+//@ field conn wCh openchan
 //@ field conn readDeadline immutable
 //@ field conn writeDeadline immutable
 //@ lockset C19: conn
 
 //@ property C10: conn.Read, conn.SetReadDeadline
+//@ property C18: conn.Read, conn.Write, conn.Close
